@@ -16,7 +16,13 @@ C20 driver.  Requests (after a `graph …` line; all ids abstract):
   cliques                                              => <c1;c2;..>        (`e` = the empty clique)
   paths <a> <b> <min> <max|none>                       => <p1;p2;..>        (iterator order)
   steiner terms=<..>                                   => nodes=<..> edges=<edge ids>
-  pagerank d=<num>/<den> it=<k> perm=<p>               => <ranks·1e12>|<ranks·1e12 of the relabelled copy>
+  pagerank d=<num>/<den> it=<k> perm=<p> [tol=<units>]  => <ranks·1e12>|<ranks·1e12 of the relabelled copy>
+                                                          (tol: tolerance in units of 1e-12; default 1000 = 1e-9; the f32 runs send 2e-5)
+  note <tags>                                          => -                 (tags of the case for the distribution report; always `ok`)
+  law <name> <details>                                 => ok | VIOLATED <why>
+                                                          (wave 6: a law the harness checked against the implementation itself — iterator
+                                                          contracts of the returned iterators and of the result types' readers, independence
+                                                          of a type parameter, capacity corners; anything but `ok` is a SPECFAIL)
 
 Verdict = (0) run-time checks of the hypotheses of the property theorems (`Model/C20W4Scope.lean`,
 `Steiner.scopeB`, `DsaturBin.hypsB`, …; a failing check of something the graph type / encoding must
@@ -72,15 +78,16 @@ def parseRat (s : String) : Option Rat :=
 
 def hasNaN (s : String) : Bool := (s.splitOn ",").any fun t => t == "nan"
 
-/-- spec-level clauses of page_rank on the printed integers (rank·1e12, tolerance 1e-9 = 1000 units) -/
-def judgeRanks (n : Nat) (perm : List Nat) (r1 r2 : List Int) : Option String :=
+/-- spec-level clauses of page_rank on the printed integers (rank·1e12; `tol` units of 1e-12: 1000 = 1e-9
+for `f64`, 2e7 = 2e-5 for `f32`) -/
+def judgeRanks (tol : Nat) (n : Nat) (perm : List Nat) (r1 r2 : List Int) : Option String :=
   if r1.length != n || r2.length != n then some s!"{r1.length} / {r2.length} ranks for {n} node indices"
   else if n == 0 then none
   else if r1.any (· < 0) || r2.any (· < 0) then some "a rank is negative"
-  else if (r1.sum - 1000000000000).natAbs > 1000 then some s!"ranks sum to {r1.sum}e-12, not 1"
-  else if (r2.sum - 1000000000000).natAbs > 1000 then some s!"ranks of the relabelled copy sum to {r2.sum}e-12, not 1"
+  else if (r1.sum - 1000000000000).natAbs > tol then some s!"ranks sum to {r1.sum}e-12, not 1"
+  else if (r2.sum - 1000000000000).natAbs > tol then some s!"ranks of the relabelled copy sum to {r2.sum}e-12, not 1"
   else
-    match (List.range n).find? fun a => ((r1.getD a 0) - (r2.getD (applyPerm perm a) 0)).natAbs > 1000 with
+    match (List.range n).find? fun a => ((r1.getD a 0) - (r2.getD (applyPerm perm a) 0)).natAbs > tol with
     | some a => some s!"rank of node {a} is {r1.getD a 0}e-12 but its image {applyPerm perm a} in the relabelled copy has {r2.getD (applyPerm perm a) 0}e-12"
     | none => none
 
@@ -172,7 +179,10 @@ def step (d : DState) (req : List String) (impl : String) : DState × String :=
       if !pathsScopeB g a then (d, "SPECFAIL side condition pathsScope does not hold: an edge ends outside the nodes or `from` is not a node") else
       let hi := hi.toNat?
       let out := parseNatLists impl
-      let fuel := 64 * (g.nodes.length + 2) * (g.edges.length + 2) * (out.length + 2)
+      -- the iterator's work is not bounded by the size of its output (an absent target, `min` above what
+      -- the graph offers: the whole tree of simple paths from `a` is explored and nothing is yielded), hence
+      -- the constant floor: enough for the complete digraph on 8 nodes (~1.1e5 steps); fuel is only an upper bound
+      let fuel := 64 * (g.nodes.length + 2) * (g.edges.length + 2) * (out.length + 2) + 4000000
       let model := match Paths.allSimplePaths d.v.succ g.nodes.length a b lo hi fuel with
         | some ps => showNatLists ps
         | none => "FUEL"
@@ -230,8 +240,11 @@ def step (d : DState) (req : List String) (impl : String) : DState × String :=
           (d, s!"KNOWN D21 {why}; every other clause (inside the graph, terminals, leaves, connected, weight <= 2*optimum) holds, and the mirror model of the unchanged code returns exactly this subgraph")
         else (d, s!"SPECFAIL {why} (not finding D21: no run of the mirror model of the unchanged code returns this subgraph)")
     | _, _ => (d, s!"SPECFAIL malformed answer {impl}")
-  | ["pagerank", ds, its, ps] =>
+  | "pagerank" :: ds :: its :: ps :: rest =>
     if !d.ok then (d, sideViewMsg) else
+    let tol : Nat := match rest with
+      | [t] => if t.startsWith "tol=" then ((t.drop 4).toString.toNat?).getD 1000 else 1000
+      | _ => 1000
     match parseRat ((ds.drop 2).toString), ((its.drop 3).toString).toNat?, impl.splitOn "|" with
     | some dq, some it, [s1, s2] =>
       let perm := parseNats ((ps.drop 5).toString)
@@ -247,17 +260,21 @@ def step (d : DState) (req : List String) (impl : String) : DState × String :=
       else
       let r1 := parseInts s1
       let r2 := parseInts s2
-      match judgeRanks n perm r1 r2 with
+      match judgeRanks tol n perm r1 r2 with
       | some why => (d, s!"SPECFAIL {why}")
       | none =>
         if n == 0 then (d, "ok") else
         match model with
         | none => (d, "MODELDIFF model=[normalising sum is zero] impl=[finite ranks]")
         | some m =>
-          match (List.range n).find? fun a => !(closeTo (r1.getD a 0) (PR.rk m a) 1001) with
+          match (List.range n).find? fun a => !(closeTo (r1.getD a 0) (PR.rk m a) (tol + 1)) with
           | none => (d, "ok")
           | some a => (d, s!"MODELDIFF model=[rank {a} = {PR.rk m a}] impl=[{r1.getD a 0}e-12]")
     | _, _, _ => (d, s!"SPECFAIL bad request")
+  | "note" :: _ => (d, "ok")
+  | "law" :: name :: _ =>
+    if impl == "ok" then (d, "ok")
+    else (d, s!"SPECFAIL law {name} does not hold for the implementation: {impl} ({String.intercalate " " req})")
   | _ => (d, s!"SPECFAIL bad request {req}")
 
 end PetgraphModel.C20
